@@ -149,9 +149,10 @@ static int runScenario(const Scenario &sc, int fd)
     // a request started while the requests of the OLD session are being cancelled belongs to the new session, which lives:
     // it must not be completed (cancelled) together with them
     bool spuriousCancel = sc.site == "opened" && (sc.body == "new" || sc.body == "same") && w.bodiesRun > 0 && w.counts.back() != 0;
-    // a packet sent from inside resetCache() is dropped from the unacknowledged cache by resetCache()'s final clear() without a report
-    // (StreamAckManager's business, passed on to property C09): for the request table that is "sent, then no longer in the cache"
-    if (sc.site == "failall" && (sc.body == "new" || sc.body == "same") && !w.bodyOp.empty()) w.bodyOp += " ;; ackall";
+    // resetCache() reports the unacknowledged packets one after the other; the body runs after the first report (q0's), and a
+    // packet sent from inside it lands behind the running iteration in the ordered cache and is reported by the same call:
+    // for the request table that is "q0's send fails; the body; the cache is reset"
+    if (sc.site == "failall" && !w.bodyOp.empty()) { siteOp = "fail q0"; w.bodyOp += " ;; failall"; }
     put(siteOp + (w.bodyOp.empty() ? "" : " ;; " + w.bodyOp));
     // the end of every history: the client goes away; whatever is still pending must complete now
     if (w.c) { auto *c = w.c; delete c; w.c = nullptr; }
